@@ -128,7 +128,7 @@ def make_sim(root, spec):
             with open(os.path.join(simdir, f'output-{rnum:04d}', simname + '.par'), 'w') as f:
                 f.write(spec['par'])
         files = {}
-        for var in spec['vars']:
+        for var in rs.get('vars', spec['vars']):
             base = file_base(var, spec['grouped'], spec.get('custom_group'))
             thorn = VARS[var][0]
             if spec.get('custom_group') and var in spec['custom_group'][1]:
